@@ -11,7 +11,7 @@ BOUNDS = {
     "quick": "tree shapes: root with 1..3 children, optionally one grandchild level (depth 1..3); every offset an "
              "arbitrary integer, every explicit size an arbitrary non-negative integer, leaves >= 1 byte; alignments "
              "from {1,4,16} per node (enumerated) - all integers unbounded (z3 Int)",
-    "thorough": "as quick plus root with 4 children, depth 4 chains and symbolic alignments 1..64",
+    "thorough": "as quick plus root with 4 children, depth 4 chains and alignments {1, 2, 4, 8, 16, 64} (a symbolic alignment makes the obligations non-linear integer arithmetic on which z3 answers unknown)",
 }
 OUTSIDE = ("zero-length sub-images in the overlap clause; BIN/HEX/S19 save/load (bincopy text formats, C code); "
            "aligned_start/aligned_length (float division)")
@@ -41,7 +41,7 @@ def cases(tier):
     cs = []
     shapes = SHAPES_Q if tier == "quick" else SHAPES_T
     for name, sh in shapes.items():
-        for al in ((1, 4) if tier == "quick" else (1, 4, 16, "sym")):
+        for al in ((1, 4) if tier == "quick" else (1, 2, 4, 8, 16, 64)):
             cs.append({"id": f"validate/{name}/al={al}", "h": "validate", "shape": sh, "al": al, "weight": 3})
     for k in (1, 2, 3):
         cs.append({"id": f"add/{k}", "h": "add", "k": k})
